@@ -29,6 +29,12 @@ CONSTANTS = {
         ("EACH_OFFSET_SHAPE", D, r"Ok\(n\) if n <= offset_limit => Ok\(\(i, n\)\),.*?\.scan\(0_usize, \|start, end\| \{.*?Ok\(\(i, end\)\) if \*start <= end => \{.*?\.skip\((1)\) // the first element is meaningless", "int"),
         # check_bounds: null slots skipped, 0 <= key <= max
         ("CHECK_BOUNDS_SHAPE", D, r"if self\.is_null\(i\) \{\s*return Ok\(\(\)\);\s*\}.*?if dict_index < (0) \|\| dict_index > max_value \{", "int"),
+        # check_bounds: NO early return between the size assert and the scan over every key
+        ("CHECK_BOUNDS_NO_EARLY_RETURN", D, r"assert!\(buffer\.len\(\) / mem::size_of::<T>\(\) >= required_len\);\s*// Justification: buffer size was validated above\s*let indexes: &\[T\] = &buffer\.typed_data::<T>\(\)\[self\.offset\.\.required_len\];\s*indexes\.iter\(\)\.enumerate\(\)\.try_for_each\(\|\(i, &dict_index\)\| \{\s*// Do not check the value is null \(value can be arbitrary\)\s*if self\.is_null\(i\) \{\s*return Ok\(\(\)\);\s*\}\s*let dict_index: i64 = dict_index\.try_into\(\).*?if dict_index < (0) \|\| dict_index > max_value \{", "int"),
+        # validate_values: max_value = dictionary length - 1, passed to check_bounds for all 8 key types
+        ("CHECK_BOUNDS_MAX_VALUE", D, r"let dictionary_length: i64 = self\.child_data\[0\]\.len\.try_into\(\)\.unwrap\(\);\s*let max_value = dictionary_length - (1);\s*match key_type\.as_ref\(\) \{\s*DataType::UInt8 => self\.check_bounds::<u8>\(max_value\),\s*DataType::UInt16 => self\.check_bounds::<u16>\(max_value\),\s*DataType::UInt32 => self\.check_bounds::<u32>\(max_value\),\s*DataType::UInt64 => self\.check_bounds::<u64>\(max_value\),\s*DataType::Int8 => self\.check_bounds::<i8>\(max_value\),\s*DataType::Int16 => self\.check_bounds::<i16>\(max_value\),\s*DataType::Int32 => self\.check_bounds::<i32>\(max_value\),\s*DataType::Int64 => self\.check_bounds::<i64>\(max_value\),", "int"),
+        # DictionaryArray::try_new: every valid key k must satisfy 0 <= k < values.len(), unless all keys are null
+        ("DICT_TRY_NEW_SHAPE", "arrow-array/src/array/dictionary_array.rs", r"let all_null = keys\.null_count\(\) == keys\.len\(\);\s*if !all_null \{\s*let zero = K::Native::usize_as\((0)\);\s*let values_len = values\.len\(\);\s*if let Some\(\(idx, v\)\) = keys\.values\(\)\.iter\(\)\.enumerate\(\)\.find\(\|\(idx, v\)\| \{\s*\(v\.is_lt\(zero\) \|\| v\.as_usize\(\) >= values_len\) && keys\.is_valid\(\*idx\)", "int"),
         # check_run_ends: positive, strictly increasing
         ("RUN_ENDS_SHAPE", D, r"if value <= 0_i64 \{.*?if ix > (0) && value <= prev_value \{", "int"),
         # GAP (non-nullable child): NullBuffer::contains zips the two masks from bit 0
